@@ -169,15 +169,16 @@ def run_shard(spec, ctx):
         marks = [chr(m) for m in (0x300, 0x301, 0x302, 0x303, 0x306, 0x308, 0x30A, 0x30C, 0x327, 0x328, 0x338, 0x342, 0x345)]
         items += [c + m for c in chars if c and (c.isalpha() or c in "<=>;`") for m in marks]
         items = items[spec["i"]::spec["n"]]
-        contexts = ['\t.ascii "{}"', "\t.asciz /a{}b/", "\t.word '{}", "\t.word '{}'", "\t.byte '{}'", "\tmov #'{}, r0", '\t.word "{}a', '\t.word "a{}"', "\t.ascii 'ab'<12>'{}'", '\tmake_wav "t.wav", "ab{}"', '\tmake_turbo_wav "t.wav", "{}ab"']
+        contexts = ['\t.ascii "{}"', "\t.asciz /a{}b/", "\t.word '{}", "\t.word '{}'", "\t.byte '{}'", "\tmov #'{}, r0", '\t.word "{}a', '\t.word "a{}"', "\t.ascii 'ab'<12>'{}'", '\tmake_wav "t.wav", "ab{}"', '\tmake_turbo_wav "t.wav", "{}ab"',
+                    "\t.repeat 2 {{ .word '{}' }}", "\t.repeat 1 {{ .dword 1, '{} }}"]
         LINEBREAKS = "\n\r\x0b\x0c\x1c\x1d\x1e\x85\u2028\u2029"
         for b in range(0, len(items), 128):
             chunk = items[b:b + 128]
             lines = []
             for j, it in enumerate(chunk):
-                which = range(len(contexts)) if spec["tier"] == "thorough" else [(b + j) % len(contexts), (b + j + 3) % len(contexts), (b + j + 7) % len(contexts), 9 + (b + j) % 2]
+                which = range(len(contexts)) if spec["tier"] == "thorough" else [(b + j) % len(contexts), (b + j + 3) % len(contexts), (b + j + 7) % len(contexts), 9 + (b + j) % 2, 11 + (b + j) % 2]
                 for w in which:
-                    if len(it) > 1 and w in (2, 3, 4, 5, 6, 7):
+                    if len(it) > 1 and w in (2, 3, 4, 5, 6, 7, 11, 12):
                         continue        # a character literal holds one (or exactly two) characters
                     lines.append((it, w, contexts[w].format(it)))
             solo = [i for i, (it, w, line) in enumerate(lines) if any(ch in LINEBREAKS for ch in it)]
